@@ -54,6 +54,8 @@ def main():
             env = dict(ENV, TALLYDRV=os.path.join(VERIF, "lean", ".lake", "build", "bin", "tallydrv"))
             p = subprocess.run([hbin, "-seed", seed, "-tier", tier, "-out", cov, s], cwd=VERIF, env=env, stdout=subprocess.PIPE, stderr=subprocess.STDOUT, text=True, timeout=3000)
             print("== suite %s rc=%d" % (s, p.returncode))
+            if p.returncode not in (0, 1):
+                print(p.stdout[:1800]); print("   […]")
             print(p.stdout[-2500:])
             if os.path.exists(cov):
                 d = json.load(open(cov))
